@@ -15,12 +15,17 @@ TRUSTED = ["model: coq/Model/Correlogram.v (xc_fwd/xc_bwd cursor zipper, xc_bins
            "theorems: Proofs/CorrelogramProofs.v, Proofs/PerieventProofs.v, Proofs/PerieventContProofs.v",
            "np.searchsorted(side=left) on a sorted array is the count #{t < v}; np.unique lists exactly the values present; np.arange(0, w + bs, bs) has ceil(w/bs) + 1 entries (NumPy's contracts)",
            "pandas DataFrame assembly / division by the rate Series and the TsGroup/Ts/Tsd/TsdFrame constructors' restriction to the given time support are exercised by the public-API oracle, not modelled line by line"]
-ASSUMPTIONS = ["exhaustive cases live on the dyadic lattice 2^-9 s (bins multiples of it) where `rbound += binsize`, `t - w`, `(2w)//b` are exact in float64; on decimal inputs a lag exactly on a bin edge, "
-               "a sample exactly on a peri-event window edge and a float floor-division `(2w)//b` that misses an exact quotient are counted as float_ambiguous",
+ASSUMPTIONS = ["exhaustive cases live on the dyadic lattice 2^-9 s (bins multiples of it) where `rbound += binsize`, `t - w`, `2w/b` are exact in float64; on decimal inputs a lag exactly on a bin edge "
+               "and a sample exactly on a peri-event window edge are counted as float_ambiguous (the counts must then lie between the strict and the closed bin counts); the bin centres are judged exactly everywhere",
                "rates are recovered as integers: value * n_ref * binsize (* rate of the target when norm=True) must be within 1e-6 of the integer pair count",
                "reference trains are non-empty (0/0 = NaN otherwise, not judged); norm=True with an empty target is 0/0 = NaN (checked to be NaN)",
-               "compute_autocorrelogram labels its rows with the centres rounded to 1e-6 s: judged on bin sizes that are whole microseconds; the sub-microsecond label error is probed separately (key part=index_rounded_to_us)",
-               "compute_perievent_continuous: series with a positive first sampling step; 'nearest' ties (event exactly midway between two samples) may go to either sample for the statement, the model fixes the later one",
+               "compute_autocorrelogram labels its rows with np.round(centres, 9), exact on nanosecond ticks; bins that are not whole microseconds are probed separately (key part=index_rounded_to_us, a fixed finding)",
+               "compute_perievent_continuous: 'o steps' is read as the time offset o*dt, dt = the sampling step = the smallest positive difference between consecutive samples; the ROW SET (offsets with -w0 <= o*dt <= w1) "
+               "is judged when every two consecutive samples of a common epoch are dt apart and dt is witnessed inside an epoch or by the whole series being regular (regular sampling with holes, whichever samples come first); "
+               "otherwise (irregular inside an epoch, fewer than two sample times) only: no exception, exactly one row at time 0, increasing row times, and the index-level statement for the rows returned",
+               "'nearest' ties (event exactly midway between two samples) may go to either sample for the statement, the model fixes the later one",
+               "the model of compute_perievent_continuous copies `time_array[1] - time_array[0]`: it is compared with the implementation whenever that first step is positive, and with the statement only when the first step "
+               "IS the sampling step (theorem C16_continuous_public_step; outside, C16_continuous_first_step_refuted)",
                "the nearest-sample theorem needs non-decreasing sample times and event times (what Ts/Tsd guarantee)"]
 
 U = 1953125          # 2^-9 s in ticks
@@ -66,10 +71,27 @@ def o_perievent(ts, vs, tref, w0, w1):
     return [(r, [(t - r, v) for t, v in zip(ts, vs) if r - w0 <= t < r + w1]) for r in tref]
 
 
-def o_continuous(ts, vs, tref, ep, w0, w1):
-    """returns (offsets, columns): each column is a LIST OF ACCEPTABLE columns (one per nearest sample on ties)"""
-    bs = ts[1] - ts[0]
-    offs = [o for o in range(-(w0 // bs) - 2, (w1 // bs) + 3) if -w0 <= o * bs <= w1]
+def sampling_step(ts, ep):
+    """(dt, judged). dt = the sampling step of a regularly sampled series with holes = the smallest positive difference between
+    consecutive samples (None when there are fewer than two distinct sample times). judged = the rows 'o steps from a sample' have
+    the times o*dt: every two consecutive samples lying in a common epoch are exactly dt apart, and dt is witnessed either by two
+    samples of a common epoch or by the whole series being regular"""
+    d = [b - a for a, b in zip(ts, ts[1:])]
+    pos = [x for x in d if x > 0]
+    if not pos:
+        return None, False
+    dt = min(pos)
+    inep = [b - a for a, b in zip(ts, ts[1:]) if any(s <= a and b <= e for s, e in ep)]
+    return dt, all(x == dt for x in inep) and (len(inep) > 0 or all(x == dt for x in d))
+
+
+def o_rows(dt, w0, w1):
+    """the rows of the statement: the offsets o whose time o*dt lies in the requested window [-w0, w1]"""
+    return list(range(-(w0 // dt), w1 // dt + 1))
+
+
+def o_continuous(ts, vs, tref, ep, offs):
+    """columns for the row offsets `offs` (in steps): each column is a LIST OF ACCEPTABLE columns (one per nearest sample on ties)"""
     cols = []
     for s, e in ep:
         I = [i for i, t in enumerate(ts) if s <= t <= e]
@@ -85,7 +107,53 @@ def o_continuous(ts, vs, tref, ep, w0, w1):
                 if abs(ts[p] - r) == dmin:
                     acc.append([vs[p + o] if (p + o) in I else None for o in offs])
             cols.append(acc)
-    return [o * bs for o in offs], cols
+    return cols
+
+
+def cont_verdict(ts, vs, tr, eff, w0, w1, got_t, got_c):
+    """None when the result satisfies the statement, else (part, what, expected)"""
+    dt, judged = sampling_step(ts, eff)
+    exp_offs = o_rows(dt, w0, w1) if judged else None
+    zero = [i for i, t in enumerate(got_t) if t == 0]
+    if got_c is None or len(zero) != 1 or any(a >= b for a, b in zip(got_t, got_t[1:])) or (judged and got_t != [o * dt for o in exp_offs]):
+        return ("rows", "the rows are not the offsets o (times o*dt, dt = the sampling step) inside the window [-w0, w1]"
+                + (": the step was taken from the first two samples, which a gap separates" if first_step_class(ts, dt) == "gap" else ""),
+                [[o * dt for o in exp_offs], o_continuous(ts, vs, tr, eff, exp_offs)] if judged else "exactly one row at time 0, increasing row times")
+    offs = [i - zero[0] for i in range(len(got_t))]
+    cols = o_continuous(ts, vs, tr, eff, offs)
+    if not (len(got_c) == len(cols) and all(c in acc for c, acc in zip(got_c, cols))):
+        return ("values", "column j, row o is not the sample o steps from the sample nearest r_j within its epoch (NaN outside the epoch)", [got_t, cols])
+    return None
+
+
+def cont_input(nap, ts, vs, eff, mode, container):
+    lo_t = min([0] + list(ts) + [s for s, _ in eff])
+    hi_t = max([0] + list(ts) + [e for _, e in eff])
+    sup = mk_ep(nap, eff) if mode == "support" else (None if mode == "default" else nap.IntervalSet(lo_t / 1e9 - 1.0, hi_t / 1e9 + 1.0))
+    base = np.asarray(vs, dtype=float)
+    if container == "TsdFrame":
+        return nap.TsdFrame(G.arr(ts), np.stack([base, base + 1000.0], axis=1).reshape(len(ts), 2), time_support=sup)
+    if container == "TsdTensor":
+        return nap.TsdTensor(G.arr(ts), np.stack([base + 1000.0 * q for q in range(4)], axis=1).reshape(len(ts), 2, 2), time_support=sup)
+    return nap.Tsd(G.arr(ts), base, time_support=sup)
+
+
+def cont_planes(arr, container):
+    """the data planes of the result (one per data column of the input); None = wrong shape or planes not aligned identically"""
+    if container == "Tsd":
+        return arr if arr.ndim == 2 else None
+    planes = [arr[:, :, 0], arr[:, :, 1]] if container == "TsdFrame" and arr.ndim == 3 else ([arr[:, :, a_, b_] for a_ in (0, 1) for b_ in (0, 1)] if container == "TsdTensor" and arr.ndim == 4 else None)
+    if planes is None or not all(np.array_equal(np.nan_to_num(planes[0] + 1000.0 * q, nan=-1.0), np.nan_to_num(pl, nan=-1.0)) for q, pl in enumerate(planes)):
+        return None
+    return planes[0]
+
+
+def first_step_class(ts, dt):
+    if len(ts) < 2:
+        return "none(<2 samples)"
+    if ts[1] == ts[0]:
+        return "zero"
+    return "sampling_step" if ts[1] - ts[0] == dt else "gap"
 
 
 def recover(vals, scale):
@@ -202,13 +270,10 @@ def check_frame(res, op, key, inp, df, labels, cen, exp_counts, scales, amb, mod
                                "impl": [str(c) for c in df.columns], "expected": [str(c) for c in labels]})
         return
     if got_idx != cen:
-        mm = (len(got_idx) - 1) // 2
-        if amb and len(got_idx) % 2 == 1 and abs(len(got_idx) - len(cen)) == 2 and got_idx == [k * inp["binsize"] for k in range(-mm, mm + 1)]:
-            res.float_ambiguous += 1
-            res.count("float_ambiguous:decimal (2w)//b floor division misses the exact quotient")
-        else:
-            res.violations.append({"key": dict(key, op=op, part="centres"), "what": "bin centres are not the multiples of binsize inside the window",
-                                   "input": inp, "impl": got_idx, "expected": cen})
+        # (no tolerance: since 7e5f969 the kernel takes floor(np.round(2w/b, 9)), exact for every generated (b, w); the only
+        #  inputs where that rounding is wrong are the nbins_round9 probes below, reported under their own key)
+        res.violations.append({"key": dict(key, op=op, part="centres"), "what": "bin centres are not the multiples of binsize inside the window",
+                               "input": inp, "impl": got_idx, "expected": cen})
         return
     for lab in labels:
         e = exp_counts[lab]
@@ -298,9 +363,6 @@ def run_public_corr(res, tier, rng, nap):
         bsec = b / 1e9
         bq, wq = b / uf, w / uf
         dec = kind == "decimal"
-        nbf = int((w / 1e9 * 2) // (b / 1e9))
-        nbf = nbf + 1 if nbf % 2 == 0 else nbf
-        amb_nb = dec and nbf != len(cen)
         any_pairs = False
         # --- autocorrelogram
         mauto = {}
@@ -316,7 +378,7 @@ def run_public_corr(res, tier, rng, nap):
             expc[k] = o_auto(m, b, w)
             any_pairs = any_pairs or sum(expc[k]) > 0
             scales[k] = len(m) * bsec * (r_ if norm else 1.0)
-        amb = amb_nb or (dec and any(edge_hit(m, m, b, w) for m in rm))
+        amb = dec and any(edge_hit(m, m, b, w) for m in rm)
         try:
             df = nap.compute_autocorrelogram(grp, bq, wq, norm=norm, time_units=un, **epk)
             check_frame(res, "compute_autocorrelogram", key, inp, df, keys, cen, expc, scales, amb, None if dec else mauto, {k: (m, m) for k, m in zip(keys, rm)})
@@ -324,7 +386,7 @@ def run_public_corr(res, tier, rng, nap):
             res.violations.append({"key": dict(key, op="compute_autocorrelogram", part="exception"), "what": "raised " + type(ex).__name__ + ": " + str(ex)[:100], "input": inp})
         # --- crosscorrelogram (TsGroup)
         labels, expc, scales, mcross = [], {}, {}, {}
-        amb = amb_nb
+        amb = False
         for i, j in itertools.combinations(range(3), 2):
             a, c2 = (j, i) if reverse else (i, j)
             lab = (keys[a], keys[c2])
@@ -356,7 +418,7 @@ def run_public_corr(res, tier, rng, nap):
             g1 = nap.TsGroup({keys[0]: nap.Ts(G.arr(mem[0]), time_support=supo)}, time_support=supo)
             g2 = nap.TsGroup({k: nap.Ts(G.arr(m), time_support=supo) for k, m in zip(keys[1:], mem[1:])}, time_support=supo)
             labels, expc, scales = [], {}, {}
-            amb = amb_nb
+            amb = False
             for jj in (1, 2):
                 lab = (keys[0], keys[jj])
                 labels.append(lab)
@@ -381,7 +443,7 @@ def run_public_corr(res, tier, rng, nap):
         rme = [restrict(m, eeff) for m in mem]
         Te = tot(eeff) / 1e9
         expc, scales = {}, {}
-        amb = amb_nb
+        amb = False
         for k, m in zip(keys, rme):
             if not rev:
                 expc[k] = "skip"
@@ -400,6 +462,38 @@ def run_public_corr(res, tier, rng, nap):
         res.case(("c", cn, kind, b, w, norm, reverse, un, str(ep), str(mem), str(ev)), nontrivial=any_pairs)
         if cn % 301 == 0:
             res.sample({"op": "correlograms", "members": mem, "event": ev, "binsize": b, "windowsize": w, "ep": ep, "norm": norm, "reverse": reverse, "units": un})
+    # --- the documented default ep=None passed EXPLICITLY, and the pair of groups given as a LIST (the validator and the docstring
+    #     accept "tuple/list of two TsGroups"): the result must be the one of the plain call
+    supo = mk_ep(nap, sup)
+    for c in range(12 if tier == "quick" else 60):
+        mem = [rng.choice([t for t in trains if t]) for _ in range(3)]
+        ev = rng.choice([t for t in trains if t])
+        b, w = rng.choice(bws)
+        norm = bool(c % 2)
+        grp = nap.TsGroup({k: nap.Ts(G.arr(m), time_support=supo) for k, m in zip(keys, mem)}, time_support=supo)
+        g1 = nap.TsGroup({keys[0]: nap.Ts(G.arr(mem[0]), time_support=supo)}, time_support=supo)
+        g2 = nap.TsGroup({k: nap.Ts(G.arr(m), time_support=supo) for k, m in zip(keys[1:], mem[1:])}, time_support=supo)
+        evo = nap.Ts(G.arr(ev), time_support=supo)
+        inp = {"members": dict(zip(keys, mem)), "event": ev, "binsize": b, "windowsize": w, "ep": None, "norm": norm, "reverse": False, "units": "s", "group_support": sup}
+        calls = [("compute_autocorrelogram", "explicit_ep_none", lambda kw: nap.compute_autocorrelogram(grp, b / 1e9, w / 1e9, norm=norm, **kw), {"ep": None}),
+                 ("compute_crosscorrelogram", "explicit_ep_none", lambda kw: nap.compute_crosscorrelogram(grp, b / 1e9, w / 1e9, norm=norm, **kw), {"ep": None}),
+                 ("compute_crosscorrelogram(pair of groups)", "explicit_ep_none", lambda kw: nap.compute_crosscorrelogram((g1, g2), b / 1e9, w / 1e9, norm=norm, **kw), {"ep": None}),
+                 ("compute_eventcorrelogram", "explicit_ep_none", lambda kw: nap.compute_eventcorrelogram(grp, evo, b / 1e9, w / 1e9, norm=norm, **kw), {"ep": None}),
+                 ("compute_crosscorrelogram(pair of groups)", "groups_as_list", lambda kw: nap.compute_crosscorrelogram(kw["g"], b / 1e9, w / 1e9, norm=norm), {"g": [g1, g2]})]
+        for op, trig, f, kw in calls:
+            res.evaluations += 1
+            res.count("corr_probe:" + trig)
+            ref = f({"g": (g1, g2)} if "g" in kw else {})
+            try:
+                got = f(kw)
+            except Exception as ex:
+                res.violations.append({"key": {"op": op, "part": "exception", trig: True, "exception": type(ex).__name__},
+                                       "what": "%s raised %s: %s" % ("the pair of groups passed as a list [g1, g2]" if trig == "groups_as_list" else "ep=None (the documented default) passed explicitly",
+                                                                     type(ex).__name__, str(ex)[:100]), "input": dict(inp, probe=trig), "expected": "the result of the plain call"})
+                continue
+            if not (list(got.columns) == list(ref.columns) and np.array_equal(got.index.values, ref.index.values) and np.array_equal(got.values, ref.values, equal_nan=True)):
+                res.violations.append({"key": {"op": op, "part": "values", trig: True}, "what": "result differs from the plain call", "input": dict(inp, probe=trig),
+                                       "impl": got.values.tolist(), "expected": ref.values.tolist()})
     # --- probe: autocorrelogram row labels are np.round(centres, 6) (bins that are not whole microseconds; below 1 us the
     #     labels of the neighbouring bins collapse onto 0 and `autocorrs.loc[0] = 0` wipes them as well)
     supo = mk_ep(nap, sup)
@@ -561,7 +655,7 @@ def run_perievent(res, tier, rng, nap):
                 res.violations.append({"key": {"op": "compute_perievent", "input": nm, "part": "lags"}, "what": nm + " input: lags/rows differ", "impl": [got, rows], "expected": exp,
                                        "input": {"ts": [0, step, 2 * step], "tref": [step, 2 * step], "minmax": [step, step]}})
         except Exception as ex:
-            res.violations.append({"key": {"op": "compute_perievent", "input": nm, "part": "exception"},
+            res.violations.append({"key": {"op": "compute_perievent", "input": nm, "part": "exception", "exception": type(ex).__name__},
                                    "what": "compute_perievent(%s, ...) raised %s: %s (the validator and the docstring accept it; _align_tsd builds a 1-d Tsd from the rows)" % (nm, type(ex).__name__, str(ex)[:80]),
                                    "input": {"ts": [0, step, 2 * step], "tref": [step, 2 * step], "minmax": [step, step], "container": nm}})
 
@@ -575,6 +669,8 @@ def parse_cols(s):
 
 
 def cont_cases(tier, rng):
+    """cases (ts, tref, ep, (w0, w1), kind, mode). mode: 'default' = ep omitted, default time support [t0, t_last];
+    'ep' = wide time support, epochs passed as ep=; 'support' = epochs are the series' own time support, ep omitted"""
     out = []
     step = 2 * U
     wins = [(2 * step, 2 * step), (step, 3 * step), (0, 2 * step), (5 * U, 3 * U), (3 * step, step), (U, U)]
@@ -588,7 +684,7 @@ def cont_cases(tier, rng):
         for ep in eps:
             for tr in trefs:
                 for w in wins:
-                    out.append((ts, tr, ep, w, "regular"))
+                    out.append((ts, tr, ep, w, "regular", "ep" if ep else "default"))
     if tier == "quick":
         out = rng.sample(out, 3500)
     # larger random: regular sampling with holes between epochs, events near one or both edges
@@ -601,99 +697,164 @@ def cont_cases(tier, rng):
         ep = [(s, e) for s, e in ep if s < e]
         if not G.canonical(ep) or not ep:
             continue
-        if rng.random() < 0.3:
-            # drop the samples lying between epochs, keep the first two (they define the sampling step)
-            ts = [t for i, t in enumerate(ts) if i < 2 or any(s <= t <= e for s, e in ep)]
+        mode = rng.choice(["ep", "ep", "ep", "default", "support"])
+        if mode == "default":
+            ep = None
+        elif mode == "support" or rng.random() < 0.4:
+            # recording with holes: no sample between the epochs (whichever samples come first)
+            ts = [t for t in ts if any(s <= t <= e for s, e in ep)]
+            if not ts:
+                continue
         tr = sorted(rng.randrange(0, 2 * n) * U for _ in range(rng.randint(1, 6)))
         k0, k1 = rng.randint(0, 6), rng.randint(0, 6)
         if k0 + k1 == 0:
             k1 = 1
         w = (k0 * step + rng.choice([0, U]), k1 * step + rng.choice([0, U]))
-        out.append((ts, tr, ep if rng.random() < 0.8 else None, w, "random"))
+        out.append((ts, tr, ep, w, "random", mode))
+    # the first two samples do NOT define the sampling step: a lone sample in the first epoch (gap), samples before the
+    # epochs at another spacing, a duplicated first sample; and series with fewer than two samples
+    for _ in range(260 if tier == "quick" else 2600):
+        g, m = rng.randint(2, 7), rng.randint(2, 6)
+        body = [(g + i) * step for i in range(m)]
+        ep2 = (body[0] - rng.choice([0, U]), body[-1] + rng.choice([0, U]))
+        k0, k1 = rng.randint(0, 4), rng.randint(0, 4)
+        w = (k0 * step + rng.choice([0, U]), k1 * step + rng.choice([0, U]))
+        if w == (0, 0):
+            w = (0, step)
+        r = rng.random()
+        if r < 0.45:
+            ts, ep, kind = [0] + body, [(-U if rng.random() < 0.5 else 0, rng.choice([0, U, step])), ep2], "lone_first_sample"
+            ep = [iv for iv in ep if iv[0] < iv[1]]
+            mode = rng.choice(["ep", "support"])
+        elif r < 0.7:
+            ts, ep, kind, mode = [0, 3 * U] + body, [ep2], "leading_samples_outside_epochs", "ep"
+        elif r < 0.85:
+            ts, ep, kind, mode = [body[0]] + body, [ep2], "duplicated_first_sample", rng.choice(["ep", "support"])
+        else:
+            ts = rng.choice([[], [g * step], [g * step, g * step]])
+            ep, kind, mode = [(g * step - rng.choice([U, step]), g * step + rng.choice([U, 3 * step]))], "fewer_than_two_sample_times", rng.choice(["ep", "support"])
+        if not ep or not G.canonical(ep):
+            continue
+        if mode == "support":       # the constructor keeps the samples inside the time support only
+            ts = [t for t in ts if any(s_ <= t <= e_ for s_, e_ in ep)]
+        if not ts:
+            mode = "ep"             # (an empty series does not keep the time support it is given: the epochs have to be passed)
+        lo, hi = ep[0][0] // U - 1, ep[-1][1] // U + 1
+        tr = sorted(rng.randrange(lo, hi + 1) * U for _ in range(rng.randint(1, 4)))
+        out.append((ts, tr, ep, w, kind, mode))
     return out
 
 
 def run_continuous(res, tier, rng, nap, PF):
     cases = cont_cases(tier, rng)
-    lines = []
-    for ts, tr, ep, (w0, w1), kind in cases:
+    lines, mline = [], []
+    for ts, tr, ep, (w0, w1), kind, mode in cases:
         eff = ep if ep else [(ts[0], ts[-1])]
         vs = list(range(10, 10 + len(ts)))
-        bs = ts[1] - ts[0]
-        n0, n1 = -(-w0 // bs), -(-w1 // bs)
-        lines.append("pc_public\t%s\t%s\t%s\t%s\t%d\t%d" % (C.fmt_ints(ts), C.fmt_ints(vs), C.fmt_ints(tr), C.fmt_iset(eff), w0, w1))
-        lines.append("pc_public_spec\t%s\t%s\t%s\t%s\t%d\t%d" % (C.fmt_ints(ts), C.fmt_ints(vs), C.fmt_ints(tr), C.fmt_iset(eff), w0, w1))
-        lines.append("pc_kernel\t%s\t%s\t%s\t%d\t%d" % (C.fmt_ints(ts), C.fmt_ints(tr), C.fmt_iset(eff), n0, n1))
+        if first_step_class(ts, sampling_step(ts, eff)[0]) == "sampling_step":
+            # the model copies `time_array[1] - time_array[0]`; it is the statement (and survives a repair of the step) exactly when that
+            # first step is the sampling step (theorems C16_continuous_public_step / C16_continuous_first_step_refuted)
+            bs = ts[1] - ts[0]
+            n0, n1 = -(-w0 // bs), -(-w1 // bs)
+            mline.append(len(lines))
+            lines.append("pc_public\t%s\t%s\t%s\t%s\t%d\t%d" % (C.fmt_ints(ts), C.fmt_ints(vs), C.fmt_ints(tr), C.fmt_iset(eff), w0, w1))
+            lines.append("pc_public_spec\t%s\t%s\t%s\t%s\t%d\t%d" % (C.fmt_ints(ts), C.fmt_ints(vs), C.fmt_ints(tr), C.fmt_iset(eff), w0, w1))
+            lines.append("pc_kernel\t%s\t%s\t%s\t%d\t%d" % (C.fmt_ints(ts), C.fmt_ints(tr), C.fmt_iset(eff), n0, n1))
+        else:
+            mline.append(None)
     mout = C.run_model(lines, driver="driver_c16")
-    for n, (ts, tr, ep, (w0, w1), kind) in enumerate(cases):
+    for n, (ts, tr, ep, (w0, w1), kind, mode) in enumerate(cases):
         eff = ep if ep else [(ts[0], ts[-1])]
         vs = list(range(10, 10 + len(ts)))
-        bs = ts[1] - ts[0]
-        n0, n1 = -(-w0 // bs), -(-w1 // bs)
+        dt, regular = sampling_step(ts, eff)
+        fsc = first_step_class(ts, dt)
         un, uf = UNITS[n % 3] if n % 4 == 0 else UNITS[0]
-        frame = n % 6 == 5
-        inp = {"ts": ts, "values": vs, "tref": tr, "ep": ep, "minmax": [w0, w1], "units": un, "input": "TsdFrame" if frame else "Tsd"}
-        offs, ocols = o_continuous(ts, vs, tr, eff, w0, w1)
+        container = "TsdFrame" if n % 6 == 5 else ("TsdTensor" if n % 12 == 3 else "Tsd")
+        inp = {"ts": ts, "values": vs, "tref": tr, "ep": ep, "minmax": [w0, w1], "units": un, "input": container, "mode": mode}
         ins = [(r, k) for k, (s, e) in enumerate(eff) for r in tr if s <= r <= e]
+        # the rows the statement names (when the series has a sampling step and is regular inside the epochs)
+        judged_rows = regular
+        exp_offs = o_rows(dt, w0, w1) if judged_rows else None
+        ocols = o_continuous(ts, vs, tr, eff, exp_offs) if judged_rows else None
         # classification of the geometry
         trunc_l = trunc_r = both = tie = False
-        for acc in ocols:
+        for acc in (ocols or []):
             for col in acc[:1]:
                 l_ = len(col) > 0 and col[0] is None
                 r_ = len(col) > 0 and col[-1] is None
                 trunc_l, trunc_r, both = trunc_l or l_, trunc_r or r_, both or (l_ and r_)
             tie = tie or len(acc) > 1
-        res.case(("pc", tuple(ts), tuple(tr), str(ep), w0, w1), nontrivial=bool(ins) and (trunc_l or trunc_r))
+        res.case(("pc", tuple(ts), tuple(tr), str(ep), w0, w1, mode), nontrivial=bool(ins) and (trunc_l or trunc_r))
         res.count("cont_" + kind)
+        res.count("cont_first_step=" + fsc)
+        res.count("cont_input=" + container)
         res.count("cont_epochs=%s" % ("default" if ep is None else len(ep)))
+        res.count("cont_mode=" + mode)
         for nm, fl in (("cont_window_truncated_left", trunc_l), ("cont_window_truncated_right", trunc_r), ("cont_window_truncated_both_sides", both),
                        ("cont_event_midway_between_samples", tie), ("cont_event_outside_epochs", len(ins) < len(tr)),
-                       ("cont_asymmetric_window", w0 != w1), ("cont_window_not_multiple_of_step", w0 % bs != 0 or w1 % bs != 0)):
+                       ("cont_asymmetric_window", w0 != w1), ("cont_window_not_multiple_of_step", dt is not None and (w0 % dt != 0 or w1 % dt != 0)),
+                       ("cont_rows_not_judged(irregular inside an epoch, or no two samples in a common epoch)", dt is not None and not regular),
+                       ("cont_rows_not_judged(no sampling step: fewer than two sample times)", dt is None)):
             if fl:
                 res.count(nm)
-        sup = nap.IntervalSet(min(0, ts[0]) / 1e9 - 1.0, ts[-1] / 1e9 + 1.0)
-        if frame:
-            x = nap.TsdFrame(G.arr(ts), np.stack([np.asarray(vs, dtype=float), np.asarray(vs, dtype=float) + 1000.0], axis=1), time_support=sup if ep else None)
-        else:
-            x = nap.Tsd(G.arr(ts), np.asarray(vs, dtype=float), time_support=sup if ep else None)
+        x = cont_input(nap, ts, vs, eff, mode, container)
         tref = nap.Ts(G.arr(tr), time_support=nap.IntervalSet(-1.0, 5.0))
-        key = {"op": "compute_perievent_continuous", "units": un, "input": inp["input"], "epochs": "default" if ep is None else len(ep),
-               "truncated": "both" if both else ("left" if trunc_l else ("right" if trunc_r else "none"))}
-        mpub_t, mpub_c = mout[3 * n].split("#")
-        mpub = ([int(v) for v in mpub_t.split()], parse_cols(mpub_c))
-        mspec_t, mspec_c = mout[3 * n + 1].split("#")
-        mspec = ([int(v) for v in mspec_t.split()], parse_cols(mspec_c))
-        if mpub != mspec:
-            res.disagreements.append({"op": "pc_public(model) vs pc_public_spec(model)", "input": inp, "model": mpub, "spec": mspec})
-        if not (mpub[0] == offs and len(mpub[1]) == len(ocols) and all(c in acc for c, acc in zip(mpub[1], ocols))):
-            res.disagreements.append({"op": "perievent_continuous(model vs statement)", "input": inp, "model": mpub, "expected": [offs, ocols]})
-        try:
-            pc = nap.compute_perievent_continuous(x, tref, (w0 / uf, w1 / uf), time_unit=un, **({"ep": mk_ep(nap, ep)} if ep else {}))
-        except Exception as ex:
-            res.violations.append({"key": dict(key, part="exception"), "what": "raised " + type(ex).__name__ + ": " + str(ex)[:100], "input": inp})
+        key = {"op": "compute_perievent_continuous", "units": un, "input": container, "epochs": "default" if ep is None else len(ep),
+               "truncated": "both" if both else ("left" if trunc_l else ("right" if trunc_r else "none")),
+               "first_step": fsc, "n_samples": len(ts) if len(ts) < 2 else "2+"}
+        mpub = None
+        if mline[n] is not None:
+            q = mline[n]
+            mpub_t, mpub_c = mout[q].split("#")
+            mpub = ([int(v) for v in mpub_t.split()], parse_cols(mpub_c))
+            mspec_t, mspec_c = mout[q + 1].split("#")
+            mspec = ([int(v) for v in mspec_t.split()], parse_cols(mspec_c))
+            if mpub != mspec:
+                res.disagreements.append({"op": "pc_public(model) vs pc_public_spec(model)", "input": inp, "model": mpub, "spec": mspec})
+            if judged_rows:
+                if not (mpub[0] == [o * dt for o in exp_offs] and len(mpub[1]) == len(ocols) and all(c in acc for c, acc in zip(mpub[1], ocols))):
+                    res.disagreements.append({"op": "perievent_continuous(model vs statement)", "input": inp, "model": mpub, "expected": [exp_offs, ocols]})
+        else:
+            res.count("cont_model_outside_its_hypothesis(first step is not the sampling step): judged by the statement oracle alone")
+        kw = {"ep": mk_ep(nap, ep)} if mode == "ep" else ({"ep": None} if n % 5 == 0 else {})     # ep=None: the documented default, passed explicitly
+        pc = None
+        for attempt in (0, 1):
+            try:
+                pc = nap.compute_perievent_continuous(x, tref, (w0 / uf, w1 / uf), time_unit=un, **kw)
+                break
+            except Exception as ex:
+                if attempt == 0 and "ep" in kw and kw["ep"] is None and isinstance(ex, TypeError) and "Parameter ep" in str(ex):
+                    res.count("cont_probe:explicit_ep_none")
+                    res.violations.append({"key": {"op": "compute_perievent_continuous", "part": "exception", "explicit_ep_none": True, "exception": "TypeError"},
+                                           "what": "ep=None (the documented default) passed explicitly raised TypeError: " + str(ex)[:100], "input": dict(inp, probe="explicit_ep_none")})
+                    kw = {}
+                    continue
+                res.violations.append({"key": dict(key, part="exception", exception=type(ex).__name__), "what": "raised " + type(ex).__name__ + ": " + str(ex)[:100], "input": inp})
+                break
+        if pc is None:
             continue
         got_t = [C.to_ns(v) for v in pc.t]
         arr = np.asarray(pc.values)
-        if frame:
-            if arr.ndim != 3 or not np.array_equal(np.nan_to_num(arr[:, :, 0] + 1000.0, nan=-1.0), np.nan_to_num(arr[:, :, 1], nan=-1.0)):
-                res.violations.append({"key": dict(key, part="frame_columns"), "what": "TsdFrame input: data columns are not aligned identically", "input": inp})
-                continue
-            arr = arr[:, :, 0]
-        got_c = [[None if np.isnan(v) else int(v) for v in arr[:, j]] for j in range(arr.shape[1])] if arr.ndim == 2 else None
-        ok = got_c is not None and got_t == offs and len(got_c) == len(ocols) and all(c in acc for c, acc in zip(got_c, ocols))
-        if not ok:
-            res.violations.append({"key": dict(key, part="values"),
-                                   "what": "column j, row o is not the sample o steps from the sample nearest r_j within its epoch (NaN outside the epoch)",
-                                   "input": inp, "impl": [got_t, got_c], "expected": [offs, ocols]})
-        if (got_t, got_c) != mpub:
+        arr = cont_planes(arr, container)
+        if arr is None:
+            res.violations.append({"key": dict(key, part="frame_columns"), "what": container + " input: the data columns are not aligned identically / wrong shape", "input": inp,
+                                   "impl": list(np.asarray(pc.values).shape)})
+            continue
+        got_c = [[None if np.isnan(v) else int(v) for v in arr[:, j]] for j in range(arr.shape[1])]
+        bad = cont_verdict(ts, vs, tr, eff, w0, w1, got_t, got_c)
+        if bad is not None:
+            res.violations.append({"key": dict(key, part=bad[0]), "what": bad[1], "input": inp, "impl": [got_t, got_c], "expected": bad[2]})
+        if mpub is not None and (got_t, got_c) != mpub:
             res.disagreements.append({"op": "compute_perievent_continuous", "input": inp, "impl": [got_t, got_c], "model": list(mpub)})
         # kernel: slice bounds and offsets
-        if n % 2 == 0:
+        if n % 2 == 0 and mpub is not None:
+            bs = ts[1] - ts[0]
+            n0, n1 = -(-w0 // bs), -(-w1 // bs)
             st, en = G.arr([s for s, _ in eff]), G.arr([e for _, e in eff])
             for nm, f in (("compiled", PF._jitcontinuous_perievent),) + ((("py_func", PF._jitcontinuous_perievent.py_func),) if n % 10 == 0 else ()):
                 idx, sl, ntar, sw = f(G.arr(ts), G.arr(tr), st, en, np.array([n0, n1]))
                 gk = [int(v) for row, s_ in zip(sl, sw) for v in (row[0], row[1], s_)]
-                mk = [int(v) for v in mout[3 * n + 2].split()]
+                mk = [int(v) for v in mout[mline[n] + 2].split()]
                 if gk != mk or int(ntar) != len(mk) // 3:
                     res.disagreements.append({"op": "_jitcontinuous_perievent", "mode": nm, "input": inp, "impl": gk, "model": mk})
         if n % 901 == 0:
@@ -766,8 +927,11 @@ def run(res, tier, seed):
                 "x norm x reverse x units s/ms/us x TsGroup or pair of groups, + random decimal-lattice trains with forced edge lags (float_ambiguous only there); counts recovered as integers; "
                 "(3) compute_perievent: ALL (<=4 samples with duplicates, <=2 reference times on the half lattice) x 6 symmetric/asymmetric/one-sided windows incl. samples exactly on either window edge, "
                 "Ts/Tsd/TsGroup, units, minmax as tuple/negative tuple/scalar; (4) compute_perievent_continuous + _jitcontinuous_perievent: regular series of 2/3/5/7 samples x epochs (default + <=29 sampled 1- and 2-interval sets with ends on the half lattice) x "
-                "<=2 events on the half lattice (midway ties, on samples, outside epochs) x 6 windows (not multiples of the step, one-sided, asymmetric), + random series with 1-3 epochs and holes; Tsd and "
-                "TsdFrame; _perievent_continuous on irregular sampling with duplicate sample times. `exhaustive` refers to spaces (1) and (3) in the thorough tier; (2) and (4) are seeded samples of their products. Each compared with the extracted model AND the brute-force statement. non-trivial = at least one pair in a bin / window cuts the data / a window truncated by an epoch edge")
+                "<=2 events on the half lattice (midway ties, on samples, outside epochs) x 6 windows (not multiples of the step, one-sided, asymmetric), + random series with 1-3 epochs and holes (epochs as ep= or as the series' own time support, "
+                "no sample kept between the epochs), + series whose first two samples do NOT give the sampling step (a lone sample in the first epoch, leading samples outside the epochs at another spacing, a duplicated first sample) "
+                "and series of 0/1 sample times; Tsd, TsdFrame and TsdTensor; _perievent_continuous on irregular sampling with duplicate sample times; "
+                "(5) probes: ep=None passed explicitly to the four correlogram entry points, the pair of groups passed as a list. "
+                "`exhaustive` refers to spaces (1) and (3) in the thorough tier; (2) and (4) are seeded samples of their products. Each compared with the extracted model (where its hypotheses hold) AND the brute-force statement. non-trivial = at least one pair in a bin / window cuts the data / a window truncated by an epoch edge")
     res.exhaustive = tier == "thorough"
     run_kernel(res, tier, rng, CG)
     run_public_corr(res, tier, rng, nap)
@@ -820,20 +984,28 @@ def replay(payload):
         return 0 if got == exp else 1
     if "values" in inp:
         ts, vs, tr, ep, (w0, w1) = inp["ts"], inp["values"], inp["tref"], inp["ep"], inp["minmax"]
+        mode = inp.get("mode", "ep" if ep else "default")
+        container = inp.get("input", "Tsd")
+        uf = dict(UNITS)[inp.get("units", "s")]
         eff = [tuple(e) for e in ep] if ep else [(ts[0], ts[-1])]
-        x = nap.Tsd(G.arr(ts), np.asarray(vs, dtype=float), time_support=nap.IntervalSet(min(0, ts[0]) / 1e9 - 1.0, ts[-1] / 1e9 + 1.0) if ep else None)
-        offs, ocols = o_continuous(ts, vs, tr, eff, w0, w1)
         try:
-            pc = nap.compute_perievent_continuous(x, nap.Ts(G.arr(tr), time_support=nap.IntervalSet(-1.0, 5.0)), (w0 / 1e9, w1 / 1e9), **({"ep": mk_ep(nap, eff)} if ep else {}))
+            x = cont_input(nap, ts, vs, eff, mode, container)
+            pc = nap.compute_perievent_continuous(x, nap.Ts(G.arr(tr), time_support=nap.IntervalSet(-1.0, 5.0)), (w0 / uf, w1 / uf), time_unit=inp.get("units", "s"),
+                                                  **({"ep": mk_ep(nap, eff)} if mode == "ep" else ({"ep": None} if inp.get("probe") == "explicit_ep_none" else {})))
         except Exception as ex:
             print("impl raised", type(ex).__name__, ex)
             return 1
-        arr = np.asarray(pc.values)
+        arr = cont_planes(np.asarray(pc.values), container)
+        if arr is None:
+            print("impl: wrong shape / data columns not aligned identically", np.asarray(pc.values).shape)
+            return 1
         got_c = [[None if np.isnan(q) else int(q) for q in arr[:, j]] for j in range(arr.shape[1])]
         got_t = [C.to_ns(q) for q in pc.t]
-        print("impl", got_t, got_c, "expected (any of)", offs, ocols)
-        ok = got_t == offs and len(got_c) == len(ocols) and all(c in acc for c, acc in zip(got_c, ocols))
-        return 0 if ok else 1
+        bad = cont_verdict(ts, vs, tr, eff, w0, w1, got_t, got_c)
+        print("impl", got_t, got_c)
+        if bad is not None:
+            print("VIOLATION part=%s: %s\n expected (any of)" % bad[:2], bad[2])
+        return 0 if bad is None else 1
     if "members" in inp:
         keys = sorted(int(k) for k in inp["members"])
         mem = [inp["members"].get(k, inp["members"].get(str(k))) for k in keys]
@@ -848,6 +1020,26 @@ def replay(payload):
         rm = [restrict(m, eff) for m in mem]
         T = tot(eff) / 1e9
         bad = 0
+        if inp.get("probe"):
+            g1 = nap.TsGroup({keys[0]: nap.Ts(G.arr(mem[0]), time_support=supo)}, time_support=supo)
+            g2 = nap.TsGroup({k: nap.Ts(G.arr(m), time_support=supo) for k, m in zip(keys[1:], mem[1:])}, time_support=supo)
+            evo = nap.Ts(G.arr(inp["event"]), time_support=supo)
+            try:
+                if inp["probe"] == "groups_as_list":
+                    df = nap.compute_crosscorrelogram([g1, g2], b / 1e9, w / 1e9, norm=norm)
+                elif "auto" in op:
+                    df = nap.compute_autocorrelogram(grp, b / 1e9, w / 1e9, norm=norm, ep=None)
+                elif "event" in op:
+                    df = nap.compute_eventcorrelogram(grp, evo, b / 1e9, w / 1e9, norm=norm, ep=None)
+                elif "pair" in op:
+                    df = nap.compute_crosscorrelogram((g1, g2), b / 1e9, w / 1e9, norm=norm, ep=None)
+                else:
+                    df = nap.compute_crosscorrelogram(grp, b / 1e9, w / 1e9, norm=norm, ep=None)
+            except Exception as ex:
+                print("impl raised", type(ex).__name__, ex)
+                return 1
+            print("impl returned a frame of shape", df.shape)
+            return 0
         if "auto" in op:
             df = nap.compute_autocorrelogram(grp, b / uf, w / uf, norm=norm, time_units=un, **epk)
             for k, m in zip(keys, rm):
